@@ -40,7 +40,7 @@ type UnitResult struct {
 func (e *Engine) newUnit(ct *Contract, prop string) *Unit {
 	return &Unit{eng: e, fn: ct.Fn, ct: ct, prop: prop, K: 1, unsup: map[string]int{}, derivedTab: map[string]*Region{}, captured: map[*Object]bool{},
 		exprText: map[*ssa.Function]map[tokenPos]string{}, usedCallee: map[string]map[string]bool{}, inlined: map[string]bool{},
-		modRecv: map[*Object]bool{}, modRgn: map[*Region]bool{}, maxPaths: 600, cellTab: map[*ssa.Function]map[tokenPos]*ssa.Alloc{},
+		modRecv: map[*Object]bool{}, modRgn: map[*Region]bool{}, maxPaths: 600, cellTab: map[*ssa.Function]map[tokenPos]*ssa.Alloc{}, cellMulti: map[*ssa.Function]map[tokenPos][]*ssa.Alloc{},
 		aliasBase: map[*Region]*Region{}, except: map[string]*Term{}}
 }
 
